@@ -399,6 +399,7 @@ type nodeEnv struct {
 	w     *world
 	mock  *testnode.Chain33Mock
 	mockB *testnode.Chain33Mock // baseline pool (the blacklist is emptied around every call to it)
+	wedged bool                 // a pool stopped answering: its Close would block for ever
 	mockC *testnode.Chain33Mock // pool with mempool.disableExecCheck=true: the only configuration of this repository (no evm
 	// plugin) in which a proxy-exec transaction passes the remaining pool checks
 	state []byte
@@ -624,7 +625,7 @@ func early(msg string) bool {
 
 func (e *nodeEnv) poolSweep(n int) {
 	w := e.w
-	nProxied, maxProxied := 0, gen.Scale(4, 40)
+	nProxied, maxProxied := 0, gen.Scale(4, 20)
 	noReply := 0
 	for i := 0; i < n; i++ {
 		if i%20 == 0 {
@@ -715,10 +716,8 @@ func (e *nodeEnv) poolSweep(n int) {
 			out.Stat("pool_submission_never_answered", 1)
 			out.Note(fmt.Sprintf("mempool did not answer EventTx within 60s: kind=%d where=%s base=%q got=%q", kind, where, bmsg, gmsg))
 			noReply++
-			if noReply >= 2 {
-				return
-			}
-			continue
+			e.wedged = true
+			return
 		}
 		reach := 1
 		if base == "other" && early(bmsg) && !strings.Contains(bmsg, "ErrInvalidAddress") {
@@ -936,10 +935,15 @@ func nodeMode(r *gen.Rand) {
 	t0 := time.Now()
 	e.execSweep(gen.Scale(140, 3000))
 	out.Note(fmt.Sprint("exec sweep ", time.Since(t0)))
-	e.poolSweep(gen.Scale(100, 2000))
-	out.Note(fmt.Sprint("pool sweep ", time.Since(t0)))
 	e.embeddedDelay()
 	out.Note(fmt.Sprint("embedded delay ", time.Since(t0)))
+	e.poolSweep(gen.Scale(100, 2000))
+	out.Note(fmt.Sprint("pool sweep ", time.Since(t0)))
+	if e.wedged {
+		types.SetBlockedAccountsForTest(nil)
+		out.Flush()
+		os.Exit(0)
+	}
 	types.SetBlockedAccountsForTest(nil)
 }
 
